@@ -27,7 +27,8 @@ Item(p, i) == [p |-> p, id |-> i]
 \* "missing_required_other": the missing required value belongs to another field (of the second field set where there is one)
 \* "missing_required_foreign": a trajectory of other field sets than the store's (or than the ones the session will use) that also
 \* lacks a required value - refused whatever the store holds, also as the very first addition
-RejectKinds == {"missing_required", "missing_required_other", "missing_required_foreign", "fieldset_mismatch", "fieldset_redefined", "id_inconsistent"}
+\* "oversized": a valid trajectory bigger than the whole cache (only generated where the cache is small)
+RejectKinds == {"missing_required", "missing_required_other", "missing_required_foreign", "fieldset_mismatch", "fieldset_redefined", "id_inconsistent", "oversized"}
 
 VARIABLES
   exists,     \* does file F exist
@@ -157,6 +158,7 @@ Add(p, i) ==
 AddRejected(kind) ==
   /\ Writable
   /\ kind \in {"fieldset_mismatch", "fieldset_redefined"} => added # <<>>
+  /\ kind = "oversized" => Cap <= 2          \* only where the cache is small enough for the trajectory to exceed it
   /\ kind = "id_inconsistent" => indexable # "undecided"
   /\ last' = Reply("addbad", kind, "no", "-")
   /\ UNCHANGED state
